@@ -24,7 +24,7 @@ import (
 func init() {
 	Registry["C13"] = &Check{
 		Scenarios: c13Scenarios,
-		Rule: "client side: MaxRetransmits R in {0,1,2}, WatchdogInterval 3 s, RetransmitInterval 1 s on the virtual clock; the peer's reaction to the n-th DWR transmission is scripted from {success DWA after 0, 1/2 or 1 interval (1 = exact tie with the retransmission timer), DWA 5012 at once, silence}, scripts with other non-success answers (1001, 3004, a DWA without Result-Code), plus five burst scripts with answers delayed by 3/2 and 5/2 intervals (several late answers landing inside one later waiting window); all scripts of length <=2 (thorough 3), silence afterwards, so every run ends with the watchdog closing the connection; every schedule of watchdog thread, reader, timers and peer up to preemption bound 2 (thorough: unbounded for scripts of length <=1); peer steps and due timers are free transitions, so every ordering of answer / timer / reader is explored already at bound 0. Oracle: the observed (time, hop-by-hop id) sequence of DWRs and the close time must be one of the timelines of a reference model (branching only at exact ties). Redial: the peer of a first connection leaves the first DWR unanswered and disconnects 0 or 1/2 interval later, the application redials at once with the same Client, and the second connection (peer answers two DWRs, then silence) must show the model's timeline measured from its own handshake (R in {0,1}). Two live connections of one Client (dialled one after the other, both peers answer every DWR): neither is closed and each sees one DWR per interval. A client with the watchdog enabled answers a DWR its handshaken peer sends (between rounds and at the instant of its own DWR). Server side: one state machine serves 40 peers one after the other (handshake, DWR, disconnect each); for every DWR from a handshaken peer over {both identity AVPs, Origin-Host missing, Origin-Realm missing, with Origin-State-Id, Origin-Host in another letter case, another Origin-Host} x ids {0,1,2^31,2^32-1}^2 the state machine must answer a success DWA with the local identity and the request's ids.",
+		Rule: "client side: MaxRetransmits R in {0,1,2}, WatchdogInterval 3 s, RetransmitInterval 1 s on the virtual clock; the peer's reaction to the n-th DWR transmission is scripted from {success DWA after 0, 1/2 or 1 interval (1 = exact tie with the retransmission timer), DWA 5012 at once, silence}, scripts with other non-success answers (1001, 3004, a DWA without Result-Code), plus five burst scripts with answers delayed by 3/2 and 5/2 intervals (several late answers landing inside one later waiting window); all scripts of length <=2 (thorough 3), silence afterwards, so every run ends with the watchdog closing the connection; every schedule of watchdog thread, reader, timers and peer up to preemption bound 2 (thorough: unbounded for scripts of length <=1); peer steps and due timers are free transitions, so every ordering of answer / timer / reader is explored already at bound 0. Oracle: the observed (time, hop-by-hop id) sequence of DWRs and the close time must be one of the timelines of a reference model (branching only at exact ties). Redial: the peer of a first connection leaves the first DWR unanswered and disconnects 0 or 1/2 interval later, the application redials at once with the same Client, and the second connection (peer answers two DWRs, then silence) must show the model's timeline measured from its own handshake (R in {0,1}). A handshake that takes longer than WatchdogInterval (the peer answers only the retransmitted CER): no DWR before the CEA, the first one interval after it. Two live connections of one Client (dialled one after the other, both peers answer every DWR): neither is closed and each sees one DWR per interval. A client with the watchdog enabled answers a DWR its handshaken peer sends (between rounds and at the instant of its own DWR). Server side: one state machine serves 40 peers one after the other (handshake, DWR, disconnect each); for every DWR from a handshaken peer over {both identity AVPs, Origin-Host missing, Origin-Realm missing, with Origin-State-Id, Origin-Host in another letter case, another Origin-Host} x ids {0,1,2^31,2^32-1}^2 the state machine must answer a success DWA with the local identity and the request's ids.",
 		Assume: []string{"virtual time: writes and computation take no time", "data-race freedom between visible operations (audited separately with -race)"},
 		QuickBudget: 150, ThoroughBudget: 2400,
 	}
@@ -117,6 +117,7 @@ func c13Scenarios(tier string) []*Scenario {
 		}
 	}
 	out = append(out, c13TwoLive(0, 0))
+	out = append(out, c13SlowHandshake(bound))
 	for _, at := range []time.Duration{c13I, c13W} { // between rounds, and exactly when the client's own DWR goes out
 		out = append(out, c13PeerDWR(at, bound))
 	}
@@ -845,4 +846,83 @@ func c13ManyPeers(r *SeqResult) {
 		r.Violation = fmt.Sprintf("%s (library goroutines blocked at the end: %v)", verdict, blocked)
 		r.Case = map[string]interface{}{"scenario": "many-peers"}
 	}
+}
+
+// c13SlowHandshake: the peer answers only the retransmitted CER, and WatchdogInterval is shorter
+// than the time the handshake takes. Watchdog requests start AFTER the handshake: the peer must
+// not see a DWR before it has sent its CEA, the first one comes one interval after the handshake,
+// and - every DWR being answered - the connection stays open.
+var c13slow struct {
+	order  []string
+	at     []time.Duration
+	conn   *vnet.Conn
+	dialOK bool
+	hsAt   time.Duration
+}
+
+func c13SlowHandshake(bound int) *Scenario {
+	w := c13I / 2
+	body := func() {
+		c13slow.order, c13slow.at, c13slow.dialOK = nil, nil, false
+		conn := vnet.NewConn("C")
+		conn.Pieces = 1
+		c13slow.conn = conn
+		settings := &sm.Settings{OriginHost: "cli", OriginRealm: "test", VendorID: 13, ProductName: "prod",
+			HostIPAddresses: []datatype.Address{datatype.Address(net.ParseIP("10.0.0.2"))}}
+		mach := sm.New(settings)
+		cli := &sm.Client{Handler: mach, Dict: dict.Default, MaxRetransmits: 1, RetransmitInterval: c13I,
+			EnableWatchdog: true, WatchdogInterval: w,
+			AuthApplicationID: []*diam.AVP{diam.NewAVP(avp.AuthApplicationID, avp.Mbit, 0, datatype.Unsigned32(4))}}
+		vs.GoNamed("peer", true, func() {
+			p := &Peer{C: conn}
+			ncer := 0
+			for {
+				m := p.Next()
+				if m == nil {
+					return
+				}
+				switch {
+				case m.Hdr.Code == 257:
+					ncer++
+					c13slow.order, c13slow.at = append(c13slow.order, "CER"), append(c13slow.at, vs.Now())
+					if ncer == 2 {
+						c13slow.order, c13slow.at = append(c13slow.order, "CEA"), append(c13slow.at, vs.Now())
+						conn.Deliver(peerAnswer(m, 2001, true))
+					}
+				case m.Hdr.Code == 280 && m.Hdr.Flags&0x80 != 0:
+					c13slow.order, c13slow.at = append(c13slow.order, "DWR"), append(c13slow.at, vs.Now())
+					conn.Deliver(peerAnswer(m, 2001, false))
+				}
+			}
+		})
+		c, err := cli.NewConn(conn, "peer")
+		c13slow.dialOK, c13slow.hsAt = c != nil && err == nil, vs.Now()
+	}
+	check := func(s *vs.Sched) string {
+		if !c13slow.dialOK {
+			return "harness: dial failed"
+		}
+		cea := -1
+		var dwrs []time.Duration
+		for i, k := range c13slow.order {
+			switch k {
+			case "CEA":
+				cea = i
+			case "DWR":
+				if cea < 0 {
+					return fmt.Sprintf("the peer received a DWR at %v, before it had answered the CER (it saw %v): watchdog requests start after the handshake", c13slow.at[i], c13slow.order)
+				}
+				dwrs = append(dwrs, c13slow.at[i])
+			}
+		}
+		if c13slow.conn.Closed {
+			return fmt.Sprintf("the connection was closed at %v although every DWR was answered (peer saw %v)", c13slow.conn.ClosedAt, c13slow.order)
+		}
+		if len(dwrs) == 0 || dwrs[0] != c13slow.hsAt+w {
+			return fmt.Sprintf("handshake completed at %v, WatchdogInterval %v: DWRs at %v", c13slow.hsAt, w, dwrs)
+		}
+		return ""
+	}
+	return &Scenario{Name: "watchdog-after-slow-handshake", Body: body, Check: check, Bound: bound, Horizon: c13I + 5*w/2,
+		Outcome: func(s *vs.Sched) string { return fmt.Sprint(c13slow.order) }}
 }
